@@ -100,3 +100,31 @@ pub fn render_report(report: &SourceReport, input: &str) -> Result<(), String> {
 pub const AISLE_SAMPLE: &str = "[produce]\nsalt|a\nflour\n[dairy]\nmilk|kg\nwater\n";
 
 pub const SYSTEMS: [System; 2] = [System::Metric, System::Imperial];
+
+/// A pure metadata validator used wherever parse options are exercised: it is a function of the
+/// key text only. Keys of even length are excluded, keys whose length is a multiple of 3 skip the
+/// standard checks, keys containing an `a` get a warning.
+pub fn test_options<'a>() -> cooklang::ParseOptions<'a> {
+    use cooklang::analysis::CheckResult;
+    cooklang::ParseOptions {
+        recipe_ref_check: None,
+        metadata_validator: Some(Box::new(|k: &serde_yaml::Value, _v: &serde_yaml::Value, o: &mut cooklang::analysis::CheckOptions| {
+            let key = match k.as_str() {
+                Some(s) => s.to_string(),
+                None => format!("{k:?}"),
+            };
+            let n = key.chars().count();
+            if n % 2 == 0 {
+                o.include(false);
+            }
+            if n % 3 == 0 {
+                o.run_std_checks(false);
+            }
+            if key.contains('a') {
+                CheckResult::Warning(vec!["the validator does not like this key".into()])
+            } else {
+                CheckResult::Ok
+            }
+        })),
+    }
+}
